@@ -536,6 +536,67 @@ def check(ctx):
     r4.require_floor(9, "validation facts")
     rules.append(r4)
 
+    # ---------------------------------------------------------------- D5: init really writes what it was given
+    r5 = Rule("C19-D5-init-writes", "D5",
+              "every path through run_init that returns Ok has passed GenerateConfig::save_to_tauri_config or save_to_file with the configuration built from the "
+              "arguments; the write may be skipped only under an equality test of the whole stored configuration with the new one",
+              "an init that skips the write because *some* settings already match drops the ones it did not compare (verbose, visualizeDeps): what the user "
+              "asked for cannot be read back")
+    SAVES = ("GenerateConfig::save_to_file", "GenerateConfig::save_to_tauri_config")
+    for f in [g for fid, g in P.fns.items() if fid.endswith("::run_init") and fid in reach]:
+        wr = {c.bb for c in f.calls if short_path(c.best) in SAVES and c.bb in f.reach_blocks}
+        oks_ = []
+        for b in sorted(f.reach_blocks):
+            for st in f.blocks[b]["stmts"]:
+                rv = st.get("rv")
+                if rv and "lhs" in st and st["lhs"]["l"] == 0 and not st["lhs"].get("p") and rv["k"] == "aggr" and rv.get("variant") == "Ok":
+                    oks_.append(b)
+        if not wr or not oks_:
+            r5.bad(V(r5.id, f.id, "init-write-shape:%d:%d" % (len(wr), len(oks_)), "run_init: %d configuration writes, %d Ok returns" % (len(wr), len(oks_))))
+            continue
+
+        def avoiding(start):
+            seen_ = {start}
+            work_ = [start]
+            while work_:
+                b_ = work_.pop()
+                if b_ in wr:
+                    continue
+                for (_, t_) in f.succ_edges(b_):
+                    if t_ not in seen_:
+                        seen_.add(t_)
+                        work_.append(t_)
+            return seen_
+        if not any(b in avoiding(0) for b in oks_):
+            r5.ok("run_init: every Ok return is preceded by the configuration write")
+            continue
+        why = []
+        justified = True
+        for wb in sorted(wr):
+            for (bb, keep, lose) in f.filter_branches(0, wb):
+                for lab in lose:
+                    tgt_ = dict(f.succ_edges(bb))[lab]
+                    if not any(b in avoiding(tgt_) for b in oks_):
+                        continue
+                    o, outcome = f.cond_struct(bb, lab)
+                    neg = False
+                    while o[0] == "un" and o[1] == "Not":
+                        o = o[2]
+                        neg = not neg
+                    want = (outcome == "true") != neg
+                    if o[0] == "call" and o[1].name in ("eq", "ne") and "GenerateConfig" in (o[1].self_ty or "") + " ".join(o[1].generics) and want == (o[1].name == "eq"):
+                        why.append("whole-config equality")
+                    else:
+                        justified = False
+                        why.append("%s=%s" % (f.describe_origin(o)[:60], outcome))
+        if justified and why:
+            r5.ok("run_init skips the write only under %s" % ", ".join(sorted(set(why))))
+        else:
+            r5.bad(V(r5.id, f.id, "init-ok-without-write", "run_init can return Ok without having written the configuration, under a condition that is not an equality of the whole "
+                     "configuration (%s)" % "; ".join(sorted(set(why)))[:200]))
+    r5.require_floor(1, "init paths")
+    rules.append(r5)
+
     return finish(
         PROP, ctx, rules,
         "Flow and guard rules over the MIR of save_to_tauri_config (document identity, guarded inserts, no removals), key-table agreement "
